@@ -437,11 +437,26 @@ def make_on_outcomes(fname, fields, statuses, tol_names=('FEASTOL', 'ABSTOL',
                           'line %s)' % (fname, et, line),
                           extra={'prop': 'C10'})
                 st.obligs[-1].line = line or 0
-                if et in allowed_exc and st.handled:
+                if et == 'ValueError' and any(h[0] == 'ArithmeticError'
+                                              for h in st.handled):
                     # a ValueError raised from an `except ArithmeticError`
                     # handler is the documented rank error: only during
                     # start-up / the first iteration
-                    pass
+                    it = lookup_opt(ex, st, fid0, 'iters')
+                    from engine.pyvc.core import UNBOUND
+                    if it is None or it is UNBOUND:
+                        g = True
+                    else:
+                        try:
+                            g = ex.num(st, it)[1] == 0
+                        except Exception:
+                            g = False
+                    ex.oblige(st, 'rank-error-only-at-start', g, None,
+                              'a KKT failure is reported as ValueError '
+                              '(rank) only during start-up or the first '
+                              'iteration (raise at line %s)' % line,
+                              extra={'prop': 'C10'})
+                    st.obligs[-1].line = line or 0
                 continue
             if o.kind != 'return':
                 continue
@@ -453,6 +468,7 @@ def make_on_outcomes(fname, fields, statuses, tol_names=('FEASTOL', 'ABSTOL',
                 continue
             d = st.heap[v.oid].f['items']
             line = st.heap[v.oid].meta.get('site', 0)
+            check_options_source(ex, st, fid0, fname)
             for status, st2 in status_cases(ex, st, d.get('status'),
                                             statuses):
                 summ['returns'][status] = summ['returns'].get(status, 0) + 1
@@ -460,6 +476,20 @@ def make_on_outcomes(fname, fields, statuses, tol_names=('FEASTOL', 'ABSTOL',
                              statuses, tol_names, svec, slack, fid0)
         return summ
     return on_outcomes
+
+
+def check_options_source(ex, st, fid0, fname):
+    """the dictionary the options were read from is the caller's options=
+    argument when one was given, else the module-level one (C09a)"""
+    got = lookup_opt(ex, st, fid0, 'options')
+    u = st.ghost.get('user_options')
+    exp = u if u is not None else global_options(ex, st)
+    ex.oblige(st, 'options-source', isinstance(got, Ref) and
+              got.oid == exp.oid, None,
+              "%s reads its options from %s" % (fname, (
+                  "the caller's options= dictionary" if u is not None else
+                  'the module-level solvers.options')),
+              extra={'prop': 'C09'})
 
 
 def check_result(ex, st, d, status, line, fname, fields, statuses, tol_names,
@@ -619,6 +649,7 @@ def coneqp_setup(sc):
     def setup(ex, st, fid, fn):
         fr = st.frames[fid]
         fr['P'] = input_matrix(ex, st, 'P', sparse=sc.get('sparseP', None))
+        st.heap[fr['P'].oid].meta['lower_only'] = True
         fr['q'] = input_matrix(ex, st, 'q', ncols=1)
         fr['G'] = input_matrix(ex, st, 'G', sparse=None) if sc.get(
             'G', True) else None
@@ -675,3 +706,30 @@ FUNCS = {
                'on_outcomes': coneqp_on_outcomes,
                'config': {'unroll': 4}},
 }
+
+
+LOWER_OK = ('cvxopt.base.symv', 'builtins.isinstance', 'builtins.type',
+            'builtins.len')
+
+
+def pre_call_lower_only(ex, st, name, args, kwargs, n):
+    """P is given in 'L' storage: only its lower triangle may be read, i.e.
+    inside coneqp it may only be passed to base.symv (which reads the lower
+    triangle by default) or handed to the KKT factor routine"""
+    for v in list(args) + list(kwargs.values()):
+        if isinstance(v, Ref) and v.oid in st.heap and st.heap[
+                v.oid].meta.get('lower_only') and name not in LOWER_OK:
+            ex.oblige(st, 'lower-triangle-only', False, n,
+                      'P is only read through base.symv (lower triangle); '
+                      'it is passed to %s' % name, extra={'prop': 'C03'})
+    if name == 'cvxopt.base.symv':
+        up = kwargs.get('uplo', 'L')
+        for v in list(args)[:1]:
+            if isinstance(v, Ref) and v.oid in st.heap and st.heap[
+                    v.oid].meta.get('lower_only'):
+                ex.oblige(st, 'lower-triangle-only', up == 'L', n,
+                          "base.symv(P, ...) is called with uplo='L'",
+                          extra={'prop': 'C03'})
+
+
+L.hooks['pre_call'] = pre_call_lower_only
